@@ -156,7 +156,7 @@ def run(ctx):
                 )
                 continue
             ev = evs[0]
-            why = _check_tracking_write(ev, attr, idx_attr, op)
+            why = _check_tracking_write(ev, attr, idx_attr, op, _ctor_args(p))
             if why:
                 bad = True
                 chk.violation("R02.d", ev.fi, ev.node, why, loc=ev.loc)
@@ -239,7 +239,24 @@ def run(ctx):
     ctx.attempt(_replay_sites, ctx, dispatch)
 
 
-def _check_tracking_write(ev, attr, idx_attr, op):
+def _ctor_args(p):
+    """{'operation' | 'start_time' | 'machine_id': resolved argument} of the ScheduledOperation(...) built on this path."""
+    for e in p.events:
+        n = e.node
+        if e.kind == "call" and isinstance(n, ast.Call) and ast.unparse(n.func).split(".")[-1] == "ScheduledOperation":
+            names = ("operation", "start_time", "machine_id")
+            out = {}
+            for k, a in zip(names, n.args):
+                out[k] = _resolve(e, a)
+            for kw in n.keywords:
+                if kw.arg in names:
+                    out[kw.arg] = _resolve(e, kw.value)
+            return out
+    return {}
+
+
+def _check_tracking_write(ev, attr, idx_attr, op, ctor=None):
+    ctor = ctor or {}
     st = ev.node
     tgt = ev.data.get("target")
     if not isinstance(tgt, ast.Subscript):
@@ -249,7 +266,11 @@ def _check_tracking_write(ev, attr, idx_attr, op):
     # index must resolve to <scheduled_operation>.<idx_attr>
     idx = tgt.slice
     r = _resolve(ev, idx)
-    if r is None or r[1][-1:] != [idx_attr] and r[1][-2:] != ["operation", idx_attr]:
+    # the very value the scheduled operation was constructed with is its machine_id
+    same_as_ctor = idx_attr == "machine_id" and r is not None and ctor.get("machine_id") is not None and r == ctor["machine_id"]
+    if same_as_ctor:
+        pass
+    elif r is None or r[1][-1:] != [idx_attr] and r[1][-2:] != ["operation", idx_attr]:
         return (
             f"`{attr}` is indexed by `{ast.unparse(idx)}`, which is not the scheduled operation's {idx_attr}"
         )
@@ -268,6 +289,17 @@ def _check_tracking_write(ev, attr, idx_attr, op):
             d = _single_def(ev.frame.fi, x.id)
             x = d if d is not None else x
         if isinstance(x, ast.BinOp) and isinstance(x.op, ast.Add) and any(isinstance(s_, ast.Attribute) and s_.attr == "duration" for s_ in (x.left, x.right)):
+            # `<start> + <operation>.duration` with the start and the operation the scheduled operation was built
+            # from IS its end_time (ScheduledOperation.end_time = start_time + operation.duration)
+            dur = x.left if isinstance(x.left, ast.Attribute) and x.left.attr == "duration" else x.right
+            sta = x.right if dur is x.left else x.left
+
+            class _E:  # resolve in the frame of the definition
+                frame = ev.frame
+            rs, ro = _resolve(ev, sta), _resolve(ev, dur.value)
+            if rs is not None and ro is not None and rs == ctor.get("start_time") and ro == ctor.get("operation"):
+                if same_as_ctor or (r is not None and (r[0] == ro[0] or r[1][-2:] == ["operation", idx_attr])):
+                    return None
             raise AnalysisError(
                 f"{ev.loc}: `{attr}` is set to `{ast.unparse(x)}`, an end time computed afresh instead of the scheduled operation's "
                 "end_time; whether the two agree depends on the start time being computed identically in both places - not decided"
@@ -342,7 +374,44 @@ def _start_time_shape_of(ctx, fi):
         return
     if not (isinstance(v, ast.Call) and isinstance(v.func, ast.Name) and v.func.id == "max" and len(v.args) == 2 and not v.keywords):
         raise AnalysisError(f"Dispatcher.start_time: shape not recognised ({ast.unparse(v)[:60]})")
-    got = {ctx.norm.xtext(fi, expand(a)) for a in v.args}  # one-expression accessors expanded
+    def given(e):
+        """``e`` read under the pinned contract of start_time - the machine is given: `<machine> is None` is False,
+        conditional expressions on it are decided, `min(f(m) for m in [machine])` is f(machine)."""
+        import copy as _copy
+        from ..normalize import _FoldIfExp
+
+        class _NotNone(ast.NodeTransformer):
+            def visit_Compare(self, c):
+                self.generic_visit(c)
+                if (
+                    len(c.ops) == 1 and isinstance(c.left, ast.Name) and c.left.id == mid_p and isinstance(c.comparators[0], ast.Constant)
+                    and c.comparators[0].value is None and isinstance(c.ops[0], (ast.Is, ast.IsNot, ast.Eq, ast.NotEq))
+                ):
+                    return ast.copy_location(ast.Constant(value=isinstance(c.ops[0], (ast.IsNot, ast.NotEq))), c)
+                return c
+
+        class _Single(ast.NodeTransformer):
+            def visit_Call(self, c):
+                self.generic_visit(c)
+                if (
+                    isinstance(c.func, ast.Name) and c.func.id in ("min", "max") and len(c.args) == 1 and not c.keywords
+                    and isinstance(c.args[0], (ast.GeneratorExp, ast.ListComp)) and len(c.args[0].generators) == 1
+                ):
+                    g = c.args[0].generators[0]
+                    it = g.iter
+                    if isinstance(it, (ast.List, ast.Tuple)) and len(it.elts) == 1 and not g.ifs and isinstance(g.target, ast.Name):
+                        class _S(ast.NodeTransformer):
+                            def visit_Name(self, n):
+                                return _copy.deepcopy(it.elts[0]) if n.id == g.target.id and isinstance(n.ctx, ast.Load) else n
+
+                        return _S().visit(_copy.deepcopy(c.args[0].elt))
+                return c
+
+        x = ctx.norm.xexpr(fi, e)
+        x = _FoldIfExp().visit(_NotNone().visit(_copy.deepcopy(x)))
+        return _Single().visit(x)
+
+    got = {ast.unparse(given(expand(a))) for a in v.args}  # one-expression accessors expanded; the machine is given
     R = dispatcher_roles(ctx)
     want = {f"self.{R['mach_free']}[{mid_p}]", f"self.{R['job_free']}[{op_p}.job_id]"}
     alt = {f"self.machine_next_available_time[{mid_p}]", f"self.job_next_available_time[{op_p}.job_id]"}
